@@ -77,7 +77,7 @@ def _case(draw, tier):
         (1, ops.decoy_op(PIDS, ("-", None, FORMATS[1]))),
         (1, ops.REOPEN))
     n = 30 if tier == "quick" else 50
-    return {"cfg": cfg, "contents": cs, "docs": docs, "ops": draw(st.lists(ops.on_instances(op), min_size=1, max_size=n))}
+    return {"cfg": cfg, "contents": cs, "docs": docs, "ops": draw(ops.history(ops.on_instances(op), 1, n))}
 
 
 def strategy(tier):
